@@ -23,11 +23,15 @@
    AutoPoll = TRUE (real compio runtimes own the listeners): a raise step also contains the polls
    the runtimes perform for the listeners that were woken (ascending listener order), no parking.
 
+   Simulation (thorough tier): EmitAll = FALSE, no VIEW, TLC -simulate: random behaviours of exactly
+   MaxSteps steps, seeded.
+
    Cover: VIEW CoverView hides the history, so TLC keeps one (shortest) behaviour per distinct
    (state, last step) and Emit prints each of them once: one replay per coarse transition. *)
 EXTENDS Signal, Json
 
-CONSTANTS MaxSteps, AutoPoll, AllowPark
+CONSTANTS MaxSteps, AutoPoll, AllowPark,
+          EmitAll      \* TRUE: print at every finished step (cover); FALSE: only complete behaviours (simulation)
 
 VARIABLES hist, run, cur, parkl, parked, blockedT
 
@@ -157,7 +161,7 @@ GSpec == GInit /\ [][GNext]_gvars
 Last == IF hist = <<>> THEN <<>> ELSE hist[Len(hist)].c
 CoverView == <<vars, run, cur, parkl, parked, blockedT, Last>>
 
-Emit == (run = <<>> /\ cur = NoStep /\ Len(hist) >= 1) =>
+Emit == (run = <<>> /\ cur = NoStep /\ Len(hist) >= 1 /\ (EmitAll \/ Len(hist) = MaxSteps)) =>
           PrintT(<<"REPLAY", ToJson([lay |-> lay, auto |-> AutoPoll, steps |-> hist])>>)
 \* the generator never leaves the safe region of the model (otherwise expectations would be meaningless)
 GenSafe == Safe /\ NoCross /\ Delivered /\ RegisteredImpliesHandler
